@@ -66,14 +66,18 @@ def means_checks(m, g, full, family, u_arrs, cov):
                 bad.append((name + '/formula', '%s axis %d face %r = %.17g, oracle %.17g (neighbours %.17g, %.17g)' % (
                     name, k, tuple(map(int, i)), a[i], ex[i], lo[i], hi[i])))
             if positive and name != 'upwind':
-                slack = 8 * EPS * mx
+                with np.errstate(all='ignore'):
+                    lg = np.where(mx > 0, np.abs(np.log(np.where(mx > 0, mx, 1.0))), 0.0) + np.where(mn > 0, np.abs(np.log(np.where(mn > 0, mn, 1.0))), 0.0)
+                slack = (8 + 4 * lg) * EPS * mx          # exp(log(.)) round trip loses ~|log c| ulp
                 if np.any(a < mn - slack) or np.any(a > mx + slack):
                     bad.append((name + '/bounds', '%s axis %d: a face value lies outside [min,max] of its two neighbours' % (name, k)))
             if name == 'upwind':
                 # donor value must be one of: lo, hi, boundary average
                 pass
         if positive and all(n in vals for n in ('harm', 'geo', 'arith')):
-            sl = 16 * EPS * mx
+            with np.errstate(all='ignore'):
+                lg2 = np.where(mx > 0, np.abs(np.log(np.where(mx > 0, mx, 1.0))), 0.0) + np.where(mn > 0, np.abs(np.log(np.where(mn > 0, mn, 1.0))), 0.0)
+            sl = (16 + 4 * lg2) * EPS * mx
             if np.any(vals['harm'] > vals['geo'] + sl) or np.any(vals['geo'] > vals['arith'] + sl):
                 bad.append(('ordering', 'axis %d: harmonic <= geometric <= arithmetic violated' % k))
             cov['ordering_checked'] = cov.get('ordering_checked', 0) + int(vals['arith'].size)
@@ -125,7 +129,7 @@ def run_case(case):
             fv = getattr(pf, name)(pf.CellVariable(m, full.copy()))
             for k in range(g.nd):
                 a = gen.facevar_arrays(fv, g.nd)[k]
-                if np.any(np.abs(a - full.flat[0]) > 8 * EPS * abs(full.flat[0])):
+                if np.any(np.abs(a - full.flat[0]) > (8 + 4 * abs(math.log(full.flat[0]))) * EPS * abs(full.flat[0])):
                     bad.append((name + '/constant', '%s does not reproduce the constant %r on axis %d' % (name, full.flat[0], k)))
         cov['constant_reproduction'] = 1
     # locality by basis perturbation (a few random cells)
